@@ -582,7 +582,9 @@ pub enum RealFail {
 #[derive(Clone, Debug, PartialEq)]
 pub enum RealVerdict {
     Ok { gas: u64, mutations: Vec<Vec<Mutation>> },
-    Err { failing: BTreeMap<usize, RealFail> },
+    /// `order`: solutions and, per solution, nodes exactly in the order the checker reported them
+    /// (part of "the same result" under every schedule; not used by the graph-level comparison).
+    Err { failing: BTreeMap<usize, RealFail>, order: Vec<(usize, Vec<usize>)> },
     Other(String),
     Panic(String),
 }
@@ -601,6 +603,16 @@ pub struct RealRun {
     pub verdict: RealVerdict,
     pub beacons: Vec<Beacon>,
     pub events: Vec<ReadEvent>,
+}
+
+/// Node indices of one solution's error in reported order.
+pub fn reported_nodes<E>(e: &PredicateError<E>) -> Vec<usize> {
+    match e {
+        PredicateError::InvalidNodeEdges(n) => vec![*n],
+        PredicateError::ProgramErrors(pe) => pe.node_indices(),
+        PredicateError::ConstraintsUnsatisfied(u) => u.0.clone(),
+        PredicateError::Mutations(_) => vec![],
+    }
 }
 
 pub fn classify<E>(e: &PredicateError<E>) -> RealFail {
@@ -666,6 +678,7 @@ pub fn run_two_pass(sc: &Scenario, solutions: Vec<Solution>, pool: Option<&rayon
         },
         Ok(Err(PredicatesError::Failed(errs))) => RealVerdict::Err {
             failing: errs.0.iter().map(|(i, e)| (*i as usize, classify(e))).collect(),
+            order: errs.0.iter().map(|(i, e)| (*i as usize, reported_nodes(e))).collect(),
         },
         Ok(Err(e)) => RealVerdict::Other(format!("{e}")),
     };
@@ -675,8 +688,8 @@ pub fn run_two_pass(sc: &Scenario, solutions: Vec<Solution>, pool: Option<&rayon
 
 /// The two run modes called in sequence over one shared cache, with a harness-owned post-state
 /// view (the overlay is built by the harness from the first phase's outputs with its own decoder).
-pub fn run_two_phase_manual(sc: &Scenario, pool: Option<&rayon::ThreadPool>) -> RealRun {
-    use essential_check::solution::{check_set_predicates, DataOutput, RunMode};
+pub fn run_two_phase_manual(sc: &Scenario, pool: Option<&rayon::ThreadPool>, per_solution: bool) -> RealRun {
+    use essential_check::solution::{check_predicate, check_set_predicates, Ctx, DataFromSolution, DataOutput, Outputs, PredicateErrors, RunMode};
     let log = Arc::new(SpyLog::default());
     let pre = View::new(0, &sc.pre, log.clone());
     let (preds, progs) = maps(sc);
@@ -684,18 +697,46 @@ pub fn run_two_phase_manual(sc: &Scenario, pool: Option<&rayon::ThreadPool>) -> 
     let progs = Arc::new(progs);
     let cfg = Arc::new(CheckPredicateConfig { collect_all_failures: sc.collect_all });
     let body = || {
-        catch(|| -> Result<(u64, Vec<Vec<Mutation>>), Result<BTreeMap<usize, RealFail>, String>> {
+        type Failing = (BTreeMap<usize, RealFail>, Vec<(usize, Vec<usize>)>);
+        catch(|| -> Result<(u64, Vec<Vec<Mutation>>), Result<Failing, String>> {
             let fail = |e: PredicatesError<String>| match e {
-                PredicatesError::Failed(errs) => Ok(errs.0.iter().map(|(i, e)| (*i as usize, classify(e))).collect()),
+                PredicatesError::Failed(errs) => Ok((
+                    errs.0.iter().map(|(i, e)| (*i as usize, classify(e))).collect(),
+                    errs.0.iter().map(|(i, e)| (*i as usize, reported_nodes(e))).collect(),
+                )),
                 other => Err(format!("{other}")),
             };
             let mut cache = HashMap::new();
             let mut sols = sc.solutions.clone();
+            // `check_set_predicates`, or (per_solution) the single-predicate entry point `check_predicate`
+            // called once per solution with that solution's cache: both must give the same outputs
+            let csp = |state: &(View, Overlay), sols: &Vec<Solution>, mode: RunMode, cache: &mut HashMap<u16, sol::Cache>| -> Result<Outputs, PredicatesError<String>> {
+                let set = Arc::new(SolutionSet { solutions: sols.clone() });
+                if !per_solution {
+                    return check_set_predicates(state, set, preds.clone(), progs.clone(), cfg.clone(), mode, cache);
+                }
+                let (mut failed, mut data, mut gas) = (vec![], vec![], 0u64);
+                for (i, s) in sols.iter().enumerate() {
+                    let pred = preds.get(&s.predicate_to_solve).cloned().expect("scenario predicate");
+                    let c = cache.entry(i as u16).or_default();
+                    match check_predicate(state, set.clone(), pred, progs.clone(), i as u16, &cfg, Ctx { run_mode: mode, cache: c }) {
+                        Ok((g, d)) => {
+                            gas = gas.saturating_add(g);
+                            data.push(DataFromSolution { solution_index: i as u16, data: d });
+                        }
+                        Err(e) => failed.push((i as u16, e)),
+                    }
+                }
+                if !failed.is_empty() {
+                    return Err(PredicatesError::Failed(PredicateErrors(failed)));
+                }
+                Ok(Outputs { gas, data })
+            };
             // phase 1: outputs; post view = pre-state (no mutations known yet)
             let empty = Overlay { pre: pre.clone(), map: Arc::new(BTreeMap::new()) };
-            let out1 = check_set_predicates(&(pre.clone(), empty), Arc::new(SolutionSet { solutions: sols.clone() }), preds.clone(), progs.clone(), cfg.clone(), RunMode::Outputs, &mut cache).map_err(fail)?;
+            let out1 = csp(&(pre.clone(), empty), &sols, RunMode::Outputs, &mut cache).map_err(fail)?;
             let mut gas = out1.gas;
-            let mut apply = |outs: essential_check::solution::Outputs, sols: &mut Vec<Solution>| -> Result<(), Result<BTreeMap<usize, RealFail>, String>> {
+            let apply = |outs: essential_check::solution::Outputs, sols: &mut Vec<Solution>| -> Result<(), Result<Failing, String>> {
                 for d in outs.data {
                     let si = d.solution_index as usize;
                     let mut keys: BTreeSet<Key> = sols[si].state_mutations.iter().map(|m| m.key.clone()).collect();
@@ -705,12 +746,12 @@ pub fn run_two_phase_manual(sc: &Scenario, pool: Option<&rayon::ThreadPool>) -> 
                             Ok(ms) => {
                                 for m in ms {
                                     if !keys.insert(m.key.clone()) {
-                                        return Err(Ok([(si, RealFail::Mutations)].into_iter().collect()));
+                                        return Err(Ok(([(si, RealFail::Mutations)].into_iter().collect(), vec![(si, vec![])])));
                                     }
                                     sols[si].state_mutations.push(m);
                                 }
                             }
-                            Err(_) => return Err(Ok([(si, RealFail::Mutations)].into_iter().collect())),
+                            Err(_) => return Err(Ok(([(si, RealFail::Mutations)].into_iter().collect(), vec![(si, vec![])]))),
                         }
                     }
                 }
@@ -724,7 +765,7 @@ pub fn run_two_phase_manual(sc: &Scenario, pool: Option<&rayon::ThreadPool>) -> 
                 }
             }
             let post = Overlay { pre: pre.clone(), map: Arc::new(overlay) };
-            let out2 = check_set_predicates(&(pre.clone(), post), Arc::new(SolutionSet { solutions: sols.clone() }), preds.clone(), progs.clone(), cfg.clone(), RunMode::Checks, &mut cache).map_err(fail)?;
+            let out2 = csp(&(pre.clone(), post), &sols, RunMode::Checks, &mut cache).map_err(fail)?;
             gas = gas.saturating_add(out2.gas);
             apply(out2, &mut sols)?;
             Ok((gas, sols.into_iter().map(|s| s.state_mutations).collect()))
@@ -737,7 +778,7 @@ pub fn run_two_phase_manual(sc: &Scenario, pool: Option<&rayon::ThreadPool>) -> 
     let verdict = match res {
         Err(p) => RealVerdict::Panic(p),
         Ok(Ok((gas, mutations))) => RealVerdict::Ok { gas, mutations },
-        Ok(Err(Ok(failing))) => RealVerdict::Err { failing },
+        Ok(Err(Ok((failing, order)))) => RealVerdict::Err { failing, order },
         Ok(Err(Err(e))) => RealVerdict::Other(e),
     };
     let events = log.take();
@@ -784,9 +825,9 @@ pub fn compare_verdict(sc: &Scenario, rv: &RefVerdict, info: &RefInfo, real: &Re
                 issue(out, "C01", if same_multiset { "data-output-order" } else { "data-outputs" }, format!("computed mutations differ from the reference: real {m2:?} reference {mutations:?}"));
             }
         }
-        (RefVerdict::Ok { gas, .. }, RealVerdict::Err { failing }) => issue(out, "C01", "unexpected-failure", format!("reference accepts the set (gas {gas}) but the checker fails solutions {failing:?}")),
+        (RefVerdict::Ok { gas, .. }, RealVerdict::Err { failing, .. }) => issue(out, "C01", "unexpected-failure", format!("reference accepts the set (gas {gas}) but the checker fails solutions {failing:?}")),
         (RefVerdict::Err { pass, failing }, RealVerdict::Ok { gas, .. }) => issue(out, "C01", "missing-failure", format!("checker accepts the set (gas {gas}) but the reference fails in pass {pass}: {failing:?}")),
-        (RefVerdict::Err { pass, failing }, RealVerdict::Err { failing: rf }) => {
+        (RefVerdict::Err { pass, failing }, RealVerdict::Err { failing: rf, .. }) => {
             let mut_only = failing.values().all(|f| *f == SolFail::Mutations);
             if mut_only {
                 // only the first decoding failure is reported
@@ -1027,7 +1068,7 @@ impl NodeSpy {
 
 /// Every node the real run started must have started from exactly what the reference predicts,
 /// and at most once (exactly once when the set is accepted).
-pub fn check_node_inputs(rv: &RefVerdict, obs: &[NodeObs], beacons: &[Beacon], out: &mut Vec<Issue>) -> (u64, u64) {
+pub fn check_node_inputs(rv: &RefVerdict, obs: &[NodeObs], beacons: &[Beacon], unique_tags: bool, out: &mut Vec<Issue>) -> (u64, u64) {
     let start_seq: BTreeMap<(Word, Word), u64> = beacons.iter().filter(|b| b.kind == B_START).map(|b| ((b.tag, b.node), b.seq)).collect();
     if matches!(rv, RefVerdict::Unspec(_)) {
         return (0, 0);
@@ -1070,7 +1111,8 @@ pub fn check_node_inputs(rv: &RefVerdict, obs: &[NodeObs], beacons: &[Beacon], o
             }
         }
     }
-    for (k, n) in &seen {
+    // a set that lists the same solution twice runs the same (tag, node) once per copy
+    for (k, n) in seen.iter().filter(|_| unique_tags) {
         if *n > 1 {
             issue(out, "C01", "executed-twice", format!("node id {} of solution tag {} was started {n} times", k.1, k.0));
         }
